@@ -93,6 +93,34 @@ func GenC14ClientCancel(r *RNG) *CliPlan {
 	return p
 }
 
+// GenC14ClientCancelEnds: many small downloads whose callers give up once the request is out; the link towards the
+// server is held up, so the server answers each of them all the same, with HEADERS and one full DATA frame that also
+// ends the stream. Every one of those frames has been paid for out of the connection window. A last, large download
+// must still get through.
+func GenC14ClientCancelEnds(r *RNG) *CliPlan {
+	p := &CliPlan{Family: "c14-client-cancel-ends"}
+	genCliCommon(r, p)
+	p.Mask = []string{"atomic", "prelock", "net", "yield"}
+	p.Srv = PeerCfg{InitialWindow: 1 << 20, MaxFrameSize: -1, HeaderTableSize: -1, AutoWindow: true, ConnWindowBoost: 1 << 24}
+	p.Trail = "download/cancelled-ends"
+	nc := 40 + r.Intn(15)
+	for k := 0; k < nc; k++ {
+		q, l := downloadLane(r, k, 16384, "full")
+		q.Cancel = "any"
+		l.AfterCancel = true
+		p.Reqs = append(p.Reqs, q)
+		p.Lanes = append(p.Lanes, l)
+	}
+	q, l := downloadLane(r, nc, 800000, "full")
+	q.StartAfter = -1
+	p.Reqs = append(p.Reqs, q)
+	p.Lanes = append(p.Lanes, l)
+	// the server does not see the client's RST_STREAMs until it has nothing left to send
+	p.Faults = append(p.Faults, Fault{Kind: "stall-c2s", AfterOps: -1, AfterReqs: nc + 1}, Fault{Kind: "unstall-c2s", AfterOps: 1 << 30})
+	p.MaxSteps = 600000
+	return p
+}
+
 func c14ClientOnline(w *CliWorld) *Violation {
 	for _, f := range w.winUpdates[w.wuChecked:] {
 		if f.Incr == 0 {
